@@ -274,7 +274,8 @@ CLAIMED = {
         technique="Coq proof (reachable-state invariant by induction over label lists; generic preservation lemma for the joining coroutine; refutation witnesses by vm_compute) + behavioural probe facts + per-handle vm_compute trace correspondence on a single-step event loop",
         ref='6/C09'),
     'C10': dict(
-        text=("Proof (partial): on the TaskGroup LTS of C09, for EVERY label sequence (members spawned running and tasks added "
+        text=("Proof (partial): TaskGroup._on_done and _add_task are TRANSLATED from the Python source on every run and shown to do what "
+              "the model's on_done / add_task do. On the TaskGroup LTS of C09, for EVERY label sequence (members spawned running and tasks added "
               "when already finished - constructor, add_task - in any interleaving): the members consumed by join, queued in _done "
               "and those whose _on_done callback is still queued never repeat and are exactly the finished non-daemon members "
               "(exactly once); for sequences in which members are spawned running, the "
